@@ -12,3 +12,5 @@ if [ ! -x $V/bin/python ] || ! $V/bin/python -c 'import z3, crosshair' 2>/dev/nu
   PIP_NO_INDEX=1 $V/bin/pip install -q --no-index --find-links /opt/veriftools/wheels crosshair-tool z3-solver
 fi
 $V/bin/python -c 'import z3, crosshair; print("setup ok: z3", z3.get_version_string())'
+# translator / model validation (DESIGN §3.1, §10.1); informative, does not block the setup
+/verif/.venv/bin/python -m vt.cli selftest 2>&1 | tail -3 || echo "WARNING: selftest did not pass"
